@@ -307,7 +307,9 @@ def leaf_filter(out):
                 if len(a) != 1 or a[0].get('kind') != 'PackExpansionExpr':
                     casts_ok = False
                     continue
-                has_static = any(x.get('kind') == 'CXXStaticCastExpr' and 'Args' in x.get('type', {}).get('qualType', '') for x in walk(a[0]))
+                # static_cast<Args>(args): the target type is exactly the adapted parameter type (a cast to `Args &&` would
+                # hand the wrapped function the caller's own object to move from)
+                has_static = any(x.get('kind') == 'CXXStaticCastExpr' and x.get('type', {}).get('qualType', '').strip() == 'Args' for x in walk(a[0]))
                 has_helper = any(is_call(x) and callee_name(x) == 'cast'
                                  and ''.join(src_text(kids(x)[0], 'utilities/argumentadapter.h').split()).endswith('StaticCast<Args>::cast') for x in walk(a[0]))
                 if not (has_static or has_helper):
